@@ -25,7 +25,7 @@ import numpy as np
 
 from mc import choice
 from mc.ref import c08_ref as ref
-from mc.rngenv import RngEnv, FixedMenu, installed
+from mc.rngenv import RngEnv, installed
 from mc.util import rng_for, spd, allclose, maxreldev
 
 PROPERTY = 'C08'
@@ -70,8 +70,23 @@ METHSIG = [('cosine', 'none'), ('corr', 'none'), ('cosine_cov', 'none'), ('cosin
            ('corr_cov', 'none'), ('corr_cov', 'spd')]
 N_MENU = 3
 RAND_FITTERS = ('fit_optimize', 'fit_optimize_positive')
+NOT_POSED = 'fit not posed: selected present entries do not outnumber the basis RDMs'
 NONNEG = ('fit_regress_nn', 'fit_optimize_positive')
 SEARCH = ('fit_optimize', 'fit_optimize_positive', 'fit_interpolate')
+
+
+class StartMenu:
+    """finite menu of start vectors for np.random.rand: answer j is the SAME vector at every
+    call site, so the execution 'answer j everywhere' starts every BFGS run of a multi-start
+    fitter from vector j - the fit then succeeds only if that start vector alone reaches the
+    optimum ("each menu entry must reach the optimum", DESIGN 4/C08)"""
+
+    def __init__(self, seed, n=3):
+        self.seed, self.n = seed, n
+
+    def __call__(self, shape, j, call_index=0):
+        size = int(np.prod(shape)) if shape != () else 1
+        return rng_for(self.seed, 'c08start', j, size).uniform(0.05, 0.95, size=shape)
 
 
 # ----------------------------------------------------------------------------- generators
@@ -172,20 +187,28 @@ def shards(tier, seed):
                                             'desc': desc, 'method': method, 'sigma': sigma,
                                             'perturb': bool(not mask and (fill == 0 or thorough)
                                                             and (n_data == 2 or thorough))})
-    # B: optimiser-based weighted fitters (menu of start vectors)
+    # B: optimiser-based weighted fitters (menu of start vectors); one shard per index vector
     for fitter in ('fit_optimize', 'fit_optimize_positive', 'Model.fit'):
         for method, sigma in METHSIG:
             if not thorough:
-                cfgs = [(4, 2, 2, 0, [], 'stim')]
+                cfgs = [(4, 2, 2, 0, [], 'stim'), (4, 2, 2, 2, [], 'index')]
             else:
                 cfgs = [(4, 2, 1, 0, [], 'index'), (4, 2, 2, 0, [], 'stim'), (4, 2, 3, 2, [2], 'stim'),
-                        (4, 3, 2, 0, [], 'index'), (4, 2, 2, 1, [], 'index'), (5, 2, 2, 0, [0, 9], 'stim'),
-                        (5, 3, 3, 2, [], 'index')]
+                        (4, 3, 2, 0, [], 'index'), (4, 2, 2, 1, [], 'index'), (4, 3, 2, 2, [], 'stim'),
+                        (5, 2, 2, 0, [0, 9], 'stim'), (5, 3, 3, 2, [], 'index')]
             for n_cond, k, n_data, fill, mask, desc in cfgs:
-                for part in range(4 if thorough and n_cond == 4 else 1):
-                    out.append({'kind': 'weighted', 'fitter': fitter, 'n_cond': n_cond, 'k': k,
-                                'n_data': n_data, 'fill': fill, 'mask': mask, 'desc': desc,
-                                'method': method, 'sigma': sigma, 'perturb': True, 'part': part})
+                sh = {'kind': 'weighted', 'fitter': fitter, 'n_cond': n_cond, 'k': k,
+                      'n_data': n_data, 'fill': fill, 'mask': mask, 'desc': desc,
+                      'method': method, 'sigma': sigma, 'perturb': True}
+                if not thorough:
+                    plan = [(None, []), ([3, 2, 2, 0], [[2, 0, 3, 2]])]
+                else:
+                    plan = _index_plan(sh, tier)
+                    if n_cond == 5:
+                        plan = plan[::9]
+                    plan = [(r, o[:1]) for r, o in plan if r is None or len(set(r)) >= 3]
+                for rep, others in plan:
+                    out.append(dict(sh, plan=[[rep, others]]))
     # C: full choice-point exploration of the start-vector draws of fit_optimize
     for method, sigma in ([('cosine', 'none'), ('corr_cov', 'spd')] if thorough else [('cosine', 'none')]):
         out.append({'kind': 'explore', 'fitter': 'fit_optimize', 'n_cond': 4, 'k': 2, 'n_data': 2,
@@ -271,7 +294,7 @@ def _call(case, S, seed, calls_out=None, env=None):
     kw = dict(method=case['method'], pattern_idx=S['pattern_idx'],
               pattern_descriptor=S['pattern_descriptor'], sigma_k=S['sig_lib'])
     uses_rand = f in RAND_FITTERS or f == 'Model.fit'
-    menu = FixedMenu(int(seed) * 7919 + 13, n=case.get('n_menu', N_MENU)) if uses_rand else None
+    menu = StartMenu(seed, n=case.get('n_menu', N_MENU)) if uses_rand else None
     if env is None:
         prefix = case.get('choices')
         if prefix is None:      # the same menu entry at every draw of this execution
@@ -431,8 +454,8 @@ def _run_fit(case, ctx):
     fname = _fname(case)
     S = _build(case, seed)
     if not _posed(case, S):
-        ctx.exclude('fit not posed: selected present entries do not outnumber the basis RDMs')
-        return None
+        ctx.exclude(NOT_POSED)
+        return 'not-posed'
     sigp = '%s|%s' % (fname, _cfg(case))
     g = ctx.guard(sigp, case)
     theta = None
@@ -450,10 +473,10 @@ def _run_fit(case, ctx):
             if n_rand == 0:
                 ctx.fail(fname + '|any|no-start-vector-drawn', case, 'expected np.random.rand start vectors')
     if not g.ok or theta is None:
-        return None
+        return 'raised'
     if case.get('perturb') and case.get('idx') is not None:
         _perturb(case, ctx, S, theta, fname)
-    return theta
+    return 'judged'
 
 
 def _perturb(case, ctx, S, theta, fname):
@@ -515,7 +538,7 @@ def _run_order(case, ctx):
     fname = _fname(case)
     S = _build(case, seed)
     if not _posed(case, S):
-        ctx.exclude('fit not posed: selected present entries do not outnumber the basis RDMs')
+        ctx.exclude(NOT_POSED)
         return
     rep = dict(case, idx=case['rep_idx'])
     del rep['rep_idx']
@@ -559,36 +582,39 @@ def run_shard(shard, ctx):
         run_case(shard, ctx)
         return
     tier = ctx.tier
-    base = {k_: v for k_, v in shard.items() if k_ not in ('part',)}
+    base = {k_: v for k_, v in shard.items() if k_ not in ('plan',)}
     fitter = shard['fitter']
-    plan = _index_plan(shard, tier)
     if fitter in RAND_FITTERS or fitter == 'Model.fit':
-        # optimiser budget: quick = None + two bootstrap vectors; thorough = every multiset
-        if tier == 'quick':
-            plan = [(None, []), ([3, 2, 1, 0], [[0, 1, 2, 3]]), ([3, 2, 2, 0], []), ([3, 1, 1, 0], [])]
-            plan = plan[:3] if fitter != 'fit_optimize' else plan
-        else:
-            plan = [p for i, p in enumerate(plan) if shard['n_cond'] == 5 and i % 9 == 0
-                    or shard['n_cond'] == 4 and i % 4 == shard.get('part', 0)]
-            plan = [(r, o[:1]) for r, o in plan]
-        for rep, others in plan:
-            for normalize in ((True,) if fitter == 'Model.fit' else (True, False)):
-                for menu in range(N_MENU):
+        for rep, others in shard['plan']:
+            posed = True
+            for normalize, menus in ((True, range(N_MENU)), (False, (N_MENU - 1,))):
+                if fitter == 'Model.fit' and not normalize:
+                    continue
+                for menu in menus:
                     c = dict(base, kind='fit', idx=rep, normalize=normalize, menu=menu)
                     c['perturb'] = bool(menu == 0 and normalize)
-                    run_case(c, ctx)
+                    posed = run_case(c, ctx) != 'not-posed' and posed
             for o in others:
+                if not posed:
+                    ctx.exclude(NOT_POSED)
+                    continue
                 run_case(dict(base, kind='order', idx=o, rep_idx=rep, normalize=True, menu=1,
                               perturb=False), ctx)
         return
     norms = (True, False) if kind == 'weighted' else (None,)
+    plan = _index_plan(shard, tier)
     for rep, others in plan:
+        posed = True
         for normalize in norms:
             c = dict(base, kind='fit', idx=rep)
             if normalize is not None:
                 c['normalize'] = normalize
             c['perturb'] = bool(shard.get('perturb') and normalize in (True, None))
-            run_case(c, ctx)
+            posed = run_case(c, ctx) != 'not-posed' and posed
+        if not posed:
+            for o in others:
+                ctx.exclude(NOT_POSED)
+            continue
         if fitter in ('fit_interpolate', 'Model.fit/interpolate') and tier == 'quick':
             others = others[:2]
         for o in others:
@@ -601,7 +627,7 @@ def run_shard(shard, ctx):
 def run_case(case, ctx):
     kind = case['kind']
     if kind == 'fit':
-        _run_fit(case, ctx)
+        return _run_fit(case, ctx)
     elif kind == 'order':
         _run_order(case, ctx)
     elif kind == 'explore':
@@ -669,9 +695,8 @@ def _laws(case, ctx):
         _laws_base(case, ctx)
         return
     n, k, rep, fill = case['n_cond'], case['k'], case['rep'], case['fill']
-    if cls == 'fixed' and k > 1:
-        ctx.exclude('fixed model built from several RDMs (its RDM is then not a single fixed RDM)')
-        return
+    if cls == 'fixed' and k > 1 and rep != 'rdms':
+        return        # a vector / matrix defines a single RDM
     L = n * (n - 1) // 2
     masks = [[], [1]] if rep == 'rdms' or rep == 'vectors' else [[]]
     klass = {'fixed': M.ModelFixed, 'select': M.ModelSelect, 'weighted': M.ModelWeighted,
@@ -680,6 +705,8 @@ def _laws(case, ctx):
         basis, _ = _problem(ctx.seed, n, k, 1, fill, mask)
         sub = dict(case, mask=mask)
         sigp = 'Model%s|rep=%s' % (cls.capitalize(), rep)
+        if cls == 'fixed' and k > 1:
+            sigp += ',n_rdm>1'
         with ctx.guard(sigp, sub):
             B = np.array(basis, dtype=float)
             expected_desc = {'index': list(range(n))}
@@ -716,6 +743,8 @@ def _laws(case, ctx):
                     ctx.fail(sigp + '|predict-differs-from-predict_rdm', c,
                              'predict %r, predict_rdm vectors %r' % (v, rv))
                 want = ref.predict(cls, basis, t)
+                if cls == 'fixed' and k > 1:
+                    want = v          # which single RDM a stack defines is the class's choice
                 ctx.dev('predict vs reference', maxreldev(v, want))
                 if not allclose(v, want, 1e-9):
                     ctx.fail(sigp + '|predict-differs-from-weighted-sum', c, 'got %r want %r' % (v, want))
